@@ -100,6 +100,7 @@ pub fn execute(case: &Case, record_seed: Option<u64>) -> Outcome {
         Some(s) => Tape::record(s),
         None => Tape::replay(case.tape.clone()),
     };
+    crate::trace::nested_init();
     clock::begin(u64::MAX, tape);
     let reference = reference_trace(&prep, event_budget(n));
     let mut out = Outcome {
@@ -123,9 +124,15 @@ pub fn execute(case: &Case, record_seed: Option<u64>) -> Outcome {
         for kind in fixed.iter().chain(case.extra_inputs.iter()) {
             clock::rearm(work_budget(n));
             clock::fp_mix(0xC10);
+            clock::arm_nested();
             let t = with_parser(*kind, &prep, IterateAll { max_events: event_budget(n) });
+            clock::disarm_nested();
             total_ticks += clock::ticks();
             out.sub_runs += 1;
+            if let Some(msg) = clock::take_nested_wrong() {
+                out.violation = Some(("WRONG-RESULT(nested-parse)".into(), format!("candidate {}: {msg}", kind.describe())));
+                break;
+            }
             if let Some(d) = first_divergence(&reference, &t) {
                 let field = d.split('@').next().unwrap_or("?").split(':').next().unwrap_or("?").to_string();
                 out.violation = Some((
